@@ -102,6 +102,11 @@ func genC18(t *Tape, tier string) *Scenario {
 	sc.BE.Conns = []ConnBackendPlan{cp}
 	cs := ConnScript{Lat: drawLat(t), LatBack: drawLat(t), Client: cl}
 	cs.defaults()
+	if t.Bool() {
+		// the network re-cuts the server's replies: the client's reply parser meets
+		// replies that arrive in pieces, also in the middle of a line or a CRLF
+		cs.SrvFaults.WriteSplit = []int{1 + t.Intn(20), 1 + t.Intn(5)}
+	}
 	slow := false
 	for _, tx := range x.Txns {
 		slow = slow || tx.Slow
